@@ -25,10 +25,11 @@ ASSUMPTIONS = ["tag universe of 8 tags: wildcard extent and case-sensitivity are
 UNIVERSE = ("a", "b", "c", "a.b", "x-1", "k=v", "ab", "A")
 SUBSETS = [tuple(t for i, t in enumerate(UNIVERSE) if m >> i & 1) for m in range(256)]
 SUBSET_LISTS = [list(s) for s in SUBSETS]
-OPS_QUICK = ("a", "b", "a.b", "k=v", "a*", "?b")
+OPS_QUICK = ("a", "b", "a.b", "k=v", "a*", "?b", "*")
 # "a*a" / "ab*b": single-star patterns whose prefix and suffix overlap inside a shorter tag ("a", "ab") - a
 # startswith/endswith shortcut without a length test answers them wrongly
-OPS_FULL = ("a", "b", "c", "a.b", "x-1", "k=v", "a*", "?b", "[ab]c", "*.b", "a*a", "ab*b")
+# "*" / "?" / "**": the pattern consisting of the wildcard alone (matches any tag - but NOT the empty tag set)
+OPS_FULL = ("a", "b", "c", "a.b", "x-1", "k=v", "a*", "?b", "[ab]c", "*.b", "a*a", "ab*b", "*", "?", "**")
 OPS_4 = ("a", "b", "x-1", "a*")
 
 
